@@ -61,6 +61,34 @@ MY_CONSTANT = CONST
 ser.register_constant(__name__, 'MY_CONSTANT', compare_by_identity=True)
 
 
+class Base:
+  def __init__(self, v=None):
+    self.v = v
+
+  @classmethod
+  def make(cls, v=None):
+    return cls(v)
+
+
+class Sub(Base):
+  pass
+
+
+def _twin(v):
+  """A value that is == v and hashes alike but has another type / sign (or v itself)."""
+  if v is True:
+    return 1
+  if v is False:
+    return 0
+  if type(v) is int and v in (0, 1):
+    return bool(v)
+  if type(v) is float and v == 0.0:
+    return -v
+  if type(v) is tuple:
+    return fam.NT(*v) if len(v) == 2 else v
+  return v
+
+
 def danger(*a, **k):
   sigs.LOG.append(('danger', None))
   return 0
@@ -116,8 +144,14 @@ def _member(li, ck, kind, share, tagged):
     root = fdl.Config(fam.g1, x=inner, y=[second, inner])
   elif kind == 1:
     root = fdl.Partial(fam.g1, x=fdl.ArgFactory(fam.g0, x=placed), y=[second, inner])
-  else:
+  elif kind == 2:
     root = fdl.Config(fam.fp, inner, 2, 3, second, k={'i': inner})
+  elif kind == 3:
+    # two dicts whose key tuples are equal and hash alike but differ in key type / sign
+    root = fdl.Config(fam.g1, x={v: [1], 'k': 2}, y={_twin(v): [1], 'k': 2}, z=[{1: 'a', 0: 'b'}, {True: 'a', False: 'b'}, inner])
+  else:
+    # callables: a classmethod inherited through a subclass, a classmethod of the defining class, a nested class
+    root = fdl.Config(Sub.make, v=fdl.Config(Base.make, v=placed))
   return root
 
 
@@ -138,7 +172,7 @@ def c09_text(li: int, ck: int, kind: int, share: bool, tagged: bool) -> bool:
   """
   dump_json raises, or the text is valid JSON from which load_json rebuilds a canonically equal value (types, leaves,
   callables, tags, sharing, unset stays unset) without invoking anything, and a second dump gives the same document.
-  require: 0 <= li < 51 and 0 <= ck <= 10 and 0 <= kind <= 2
+  require: 0 <= li < 51 and 0 <= ck <= 10 and 0 <= kind <= 4
   """
   import crosshair
   li, ck, kind = crosshair.realize(li), crosshair.realize(ck), crosshair.realize(kind)
@@ -416,7 +450,7 @@ def obligations(tier, seed):
   bytes_note = f'codec(s) used by the bytes traverser today: {sorted(names) if names else "?"}; stub validated on {n} strings'
   if names and 'raw_unicode_escape' in names:
     rue_codec.install_into_crosshair()
-  tcubes = [Cube(f'l{li}_k{kind}', [], dict(li=li, kind=kind), est=44) for li in range(NLEAF) for kind in range(3)
+  tcubes = [Cube(f'l{li}_k{kind}', [], dict(li=li, kind=kind), est=44) for li in range(NLEAF) for kind in range(5)
             if tier != 'quick' or (li + kind) % 3 == 0 or li in (22, 23, 24, 25, 26, 46, 47, 48, 49, 50)]
   scubes = [Cube(f's{s}_{int(sh)}', [], dict(shape=s, share=sh), est=30) for s in range(4) for sh in (False, True)]
   pcubes = [Cube(f'w{w}_t{t}', [], dict(which=w, target=t), est=200) for w in range(8) for t in range(9)
@@ -425,7 +459,7 @@ def obligations(tier, seed):
   obs = [
       Obligation('c09_text', c09_text, tcubes, timeout=t, path_timeout=60, enumerated=True,
                  smoke=dict(li=2, ck=3, kind=0, share=True, tagged=True),
-                 extra_smokes=[dict(li=li, ck=li % 11, kind=li % 3, share=bool(li % 2), tagged=bool(li % 3)) for li in range(NLEAF)]),
+                 extra_smokes=[dict(li=li, ck=li % 11, kind=li % 5, share=bool(li % 2), tagged=bool(li % 3)) for li in range(NLEAF)]),
       Obligation('c09_sym', c09_sym, scubes, timeout=t, path_timeout=60,
                  smoke=dict(shape=0, share=True, tagged=True, i=5, s='ab', b=True),
                  extra_smokes=[dict(shape=s, share=False, tagged=False, i=-3, s='', b=False) for s in range(4)]),
